@@ -9,6 +9,11 @@
 //   v t x             one scalar of type t mod 12 whose bit pattern is x truncated to sizeof(T) (bool: x&1)
 //   a t x1 .. xn      Array<T> of n <= 100 elements with these bit patterns
 //   s k | bytes       k mod 3: 0 const char* (NULs dropped), 1 String (any bytes, built with String(ptr, n)), 2 ByteArray
+//   ls | bytes        a length-prefixed String: written as  << int(length) << String , read back with File >> String and
+//                     Socket >> String (an int32 length in the stream's byte order followed by that many bytes; NULs dropped)
+//   reconnect d       (part "reconn" only) the Socket is close()d here and connect()ed again - the same client object over
+//                     several TCP loopback sessions, byte order set once before the first connect and by "order" items only;
+//                     d&1: the session that starts here is written by the client (0) or read by it (1)
 //   ra k              write AGAIN the same Array object that the (k mod n)-th of the n earlier "a" ops created (in the order
 //                     now in force); the source objects live for the whole case and are shared by the three sinks, and after
 //                     every << the source (Array / String / ByteArray / C string) must still equal the model
@@ -24,6 +29,9 @@
 #include <sys/socket.h>
 #include <errno.h>
 #include <sys/ioctl.h>
+#include <poll.h>
+#include <netinet/in.h>
+#include <arpa/inet.h>
 #include <thread>
 #include <atomic>
 #include <memory>
@@ -158,6 +166,8 @@ struct Plan {
 	bool frag = false;
 	int pause_us = 0;
 	std::vector<size_t> cuts;   // sorted distinct offsets in (0, all.size())
+	std::vector<size_t> sessStart; // part "reconn": item index at which a new connection starts (first session starts at 0)
+	std::vector<int> sessDir;      // direction of each session: 0 the client writes, 1 the client reads
 };
 
 static std::string drop_nul(const std::string& s)
@@ -173,14 +183,32 @@ static Plan decode(const vf::Case& c)
 {
 	Plan p;
 	int order = 1;
+	p.sessStart.push_back(0);
+	p.sessDir.push_back(0);
 	for (size_t i = 0; i < c.ops.size(); i++) {
 		const vf::Op& o = c.ops[i];
 		Item it;
 		it.opno = (int)i;
 		if (o.name == "init") {
-			if (i == 0)
+			if (i == 0) {
 				p.init = order = (int)(((o.i(0) % 3) + 3) % 3);
+				p.sessDir[0] = (int)(o.i(1) & 1);
+			}
 			continue;
+		}
+		else if (o.name == "reconnect") {
+			if (p.sessStart.size() < 4) {
+				p.sessStart.push_back(p.items.size());
+				p.sessDir.push_back((int)(o.i(0) & 1));
+			}
+			continue;
+		}
+		else if (o.name == "ls") {
+			it.kind = 5;
+			it.t = 1;
+			it.s = drop_nul(o.str(0));
+			ref_put(it.bytes, (uint64_t)(uint32_t)it.s.size(), 4, order);
+			it.bytes += it.s;
 		}
 		else if (o.name == "order") {
 			it.kind = 0;
@@ -271,6 +299,8 @@ static std::string describe(const Item& it)
 		d += std::string("Array<") + TYPE_NAME[it.t] + "> of " + std::to_string(it.x.size()) + (it.again ? " (the same object written again)" : "");
 	else if (it.kind == 3)
 		d += it.t == 0 ? "const char*" : it.t == 1 ? "String" : "ByteArray";
+	else if (it.kind == 5)
+		d += "int32 length + String of " + std::to_string(it.s.size());
 	return d + " in " + ORDER_NAME[it.order] + " order";
 }
 
@@ -323,6 +353,10 @@ static void write_item(S& s, const Item& it, Sources& src, const char* sink)
 				VF_CHECK(to_bits<T>(a[(int)k]) == it.x[k], sink, ": operator<< changed its argument: ", describe(it), ": element ", k, " of the caller's array is now ", hx(to_bits<T>(a[(int)k])),
 				         ", was ", hx(it.x[k]));
 		});
+	else if (it.kind == 5) {
+		String str(it.s.c_str());
+		s << (int)it.s.size() << str;
+	}
 	else if (it.t == 0) {
 		// exact-size heap copy: reading past the terminator is an ASan error
 		char* p = (char*)malloc(it.s.size() + 1);
@@ -369,6 +403,12 @@ struct BufIn {
 		ByteArray a = r.read(n);
 		return std::string((const char*)a.data(), (size_t)a.length());
 	}
+	// (StreamBufferReader has no string extraction: length, then the bytes)
+	std::string lstring(size_t)
+	{
+		int n = get<int>();
+		return n >= 0 && n <= r.length() ? bytes(n) : std::string("<bad length ") + std::to_string(n) + ">";
+	}
 	void feed(const std::string&) {}
 };
 
@@ -395,6 +435,12 @@ struct FileIn {
 		s.resize((size_t)(m < 0 ? 0 : m));
 		return s;
 	}
+	std::string lstring(size_t)
+	{
+		String x = "previous content";
+		f >> x;
+		return std::string(*x, (size_t)x.length());
+	}
 	void feed(const std::string&) {}
 };
 
@@ -403,6 +449,7 @@ struct SockIn {
 	int peer;
 	bool prefed = false; // a feeder thread delivers the bytes (fragmented mode)
 	SockIn(int fd, int peerfd) : s(fd), peer(peerfd) {}
+	SockIn(const Socket& sock, int peerfd) : s(sock), peer(peerfd) {} // a second handle on the caller's Socket
 	void setEndian(Endian e) { s.setEndian(e); }
 	template <class T>
 	T get()
@@ -423,6 +470,18 @@ struct SockIn {
 		ByteArray a = s.read(n);
 		return std::string((const char*)a.data(), (size_t)a.length());
 	}
+	std::string lstring(size_t expected)
+	{
+		if (expected == 0) {
+			// Socket >> String of length 0 ends in a zero-byte read(), which the unchanged library records as a receive
+			// error; the empty string is therefore read as its length only
+			int n = get<int>();
+			return n == 0 ? std::string() : std::string("<length ") + std::to_string(n) + ">";
+		}
+		String x = "previous content";
+		s >> x;
+		return std::string(*x, (size_t)x.length());
+	}
 	// the peer sends the reference bytes of the next item just before it is read
 	void feed(const std::string& b)
 	{
@@ -436,10 +495,11 @@ struct SockIn {
 };
 
 template <class R>
-static void read_back(R& r, const Plan& p, const char* sink)
+static void read_back(R& r, const Plan& p, const char* sink, size_t from = 0, size_t to = (size_t)-1)
 {
 	int count = 0;
-	for (const Item& it : p.items) {
+	for (size_t idx = from; idx < p.items.size() && idx < to; idx++) {
+		const Item& it = p.items[idx];
 		r.feed(it.bytes);
 		if (it.kind == 0)
 			r.setEndian((Endian)it.t);
@@ -453,6 +513,10 @@ static void read_back(R& r, const Plan& p, const char* sink)
 					         vf::hexs(it.bytes.substr(k * TYPE_SIZE[it.t], TYPE_SIZE[it.t])));
 				}
 			});
+		else if (it.kind == 5) {
+			std::string got = r.lstring(it.s.size());
+			VF_CHECK(got == it.s, sink, " reader: ", describe(it), ": operator>>(String&) returned ", vf::show(got), " (", got.size(), " bytes) want ", vf::show(it.s), " from bytes ", vf::hexs(it.bytes.substr(0, 24)));
+		}
 		else {
 			std::string got = r.bytes((int)it.bytes.size());
 			VF_CHECK(got == it.bytes, sink, " reader: ", describe(it), ": read back ", vf::show(got), " want ", vf::show(it.bytes));
@@ -550,12 +614,108 @@ static void read_back_fragmented(const Plan& p)
 	close(wfd);
 }
 
+// ---- the same client Socket over several TCP loopback connections (part "reconn")
+
+static int listener(int* port)
+{
+	static int fd = -1, prt = 0;
+	if (fd < 0) {
+		fd = socket(AF_INET, SOCK_STREAM, 0);
+		sockaddr_in a;
+		memset(&a, 0, sizeof a);
+		a.sin_family = AF_INET;
+		a.sin_addr.s_addr = htonl(INADDR_LOOPBACK);
+		a.sin_port = 0; // any free port, read back below
+		socklen_t n = sizeof a;
+		VF_CHECK(fd >= 0 && bind(fd, (sockaddr*)&a, sizeof a) == 0 && listen(fd, 16) == 0 && getsockname(fd, (sockaddr*)&a, &n) == 0, "harness: cannot set up the loopback listener, errno ", errno);
+		prt = ntohs(a.sin_port);
+	}
+	*port = prt;
+	return fd;
+}
+
+// exactly n bytes from the peer descriptor (5 s per wait: ~10^5 times the expected delay); fewer only at end of stream / timeout
+static std::string recv_n(int fd, size_t n, bool until_eof = false)
+{
+	std::string out;
+	char buf[4096];
+	while (until_eof || out.size() < n) {
+		pollfd pf = {fd, POLLIN, 0};
+		if (poll(&pf, 1, 5000) <= 0)
+			break;
+		ssize_t k = recv(fd, buf, until_eof ? sizeof buf : std::min(sizeof buf, n - out.size()), 0);
+		if (k < 0 && errno == EINTR)
+			continue;
+		if (k <= 0)
+			break;
+		out.append(buf, (size_t)k);
+	}
+	return out;
+}
+
+static void run_reconnect(const Plan& p, Sources& src)
+{
+	int port = 0, lfd = listener(&port);
+	Socket client;
+	client.setEndian((Endian)p.init); // set once, before the first connect; afterwards only the "order" items change it
+	int peer = -1;
+	try {
+		for (size_t si = 0; si < p.sessStart.size(); si++) {
+			size_t from = p.sessStart[si], to = si + 1 < p.sessStart.size() ? p.sessStart[si + 1] : p.items.size();
+			std::string sess = "session " + std::to_string(si + 1) + " of the same Socket object";
+			VF_CHECK(client.connect(InetAddress("127.0.0.1", port)), "harness: ", sess, ": connect to the loopback listener failed");
+			pollfd pf = {lfd, POLLIN, 0};
+			VF_CHECK(poll(&pf, 1, 5000) > 0 && (peer = accept(lfd, 0, 0)) >= 0, "harness: ", sess, ": accept failed, errno ", errno);
+			std::string want;
+			for (size_t i = from; i < to; i++)
+				want += p.items[i].bytes;
+			if (p.sessDir[si] == 0) {
+				for (size_t i = from; i < to; i++) {
+					const Item& it = p.items[i];
+					write_item(client, it, src, "Socket");
+					std::string got = recv_n(peer, it.bytes.size());
+					VF_CHECK(got == it.bytes, "Socket, ", sess, " (byte order set before the first connect / by earlier items only): ", describe(it), " sent ", got.size(), " bytes ", vf::hexs(got.substr(0, 64)),
+					         " want ", it.bytes.size(), " bytes ", vf::hexs(it.bytes.substr(0, 64)));
+				}
+				VF_CHECK(client.error() == 0, "Socket, ", sess, ": error state ", client.error(), " after writing");
+			}
+			else {
+				size_t off = 0;
+				while (off < want.size()) {
+					ssize_t n = ::send(peer, want.data() + off, want.size() - off, MSG_NOSIGNAL);
+					VF_CHECK(n > 0, "harness: send to the client failed, errno ", errno);
+					off += (size_t)n;
+				}
+				SockIn in(client, -1);
+				in.prefed = true;
+				std::string name = "Socket, " + sess + " (byte order set before the first connect / by earlier items only),";
+				read_back(in, p, name.c_str(), from, to);
+				VF_CHECK(client.error() == 0, "Socket, ", sess, ": error state ", client.error(), " after reading");
+			}
+			client.close();
+			std::string extra = recv_n(peer, 0, true);
+			VF_CHECK(extra.empty(), "Socket, ", sess, ": ", extra.size(), " unexpected extra bytes ", vf::hexs(extra.substr(0, 32)));
+			close(peer);
+			peer = -1;
+		}
+	}
+	catch (...) {
+		if (peer >= 0)
+			close(peer);
+		throw;
+	}
+}
+
 static int g_caseno = 0;
 
 void vf_run_case(const std::string& part, const vf::Case& c)
 {
 	Plan p = decode(c);
 	Sources src(p);
+	if (part == "reconn") {
+		run_reconnect(p, src);
+		return;
+	}
 	bool doBuf = part != "file" && part != "socket" && part != "frag", doFile = part != "buffer" && part != "socket" && part != "frag", doSock = part != "buffer" && part != "file";
 
 	// ---- StreamBuffer / StreamBufferReader
@@ -736,6 +896,14 @@ static Gen<vf::Op> opgen()
 			o.name = "ra";
 			o.a = {*vf::irange<int>(0, 63)};
 		}
+		else if (w < 25) {
+			o.name = "ls";
+			int n = *gen::oneOf(vf::irange<int>(0, 20), gen::elementOf(std::vector<int>{0, 1, 5, 127, 128, 129, 255, 256, 300}));
+			std::string str;
+			for (int i = 0; i < n; i++)
+				str += (char)*vf::irange<int>(1, 255);
+			o.s = {str};
+		}
 		else if (w < 60) {
 			o.name = "v";
 			int t = *vf::irange<int>(0, 11);
@@ -790,6 +958,44 @@ static Gen<vf::Case> casegen()
 			c.ops.push_back(o);
 		if (*vf::irange<int>(0, 7) == 0)
 			c.ops.push_back(*fraggen());
+		return c;
+	});
+}
+
+// the same client Socket over 2..3 connections: byte order given once (mostly BIG, the swapping one), few order items
+static Gen<vf::Case> reconngen()
+{
+	return gen::exec([]() {
+		vf::Case c;
+		c.ops.push_back(vf::Op("init", {*gen::elementOf(std::vector<int>{0, 0, 0, 1, 2}), *vf::irange<int>(0, 1)}));
+		int sessions = *vf::irange<int>(2, 3);
+		for (int s = 0; s < sessions; s++) {
+			if (s > 0)
+				c.ops.push_back(vf::Op("reconnect", {*vf::irange<int>(0, 1)}));
+			int n = *vf::irange<int>(1, 5);
+			for (int i = 0; i < n; i++) {
+				int w = *vf::irange<int>(0, 19);
+				int t = *gen::elementOf(std::vector<int>{4, 5, 6, 7, 8, 9, 10, 11, 6, 8, 11, 3, 0});
+				if (w < 11)
+					c.ops.push_back(vf::Op("v", {t, *pattern(t)}));
+				else if (w < 16) {
+					vf::Op o("a", {t});
+					int len = *vf::irange<int>(0, 8);
+					for (int k = 0; k < len; k++)
+						o.a.push_back(*pattern(t));
+					c.ops.push_back(o);
+				}
+				else if (w < 17)
+					c.ops.push_back(vf::Op("order", {*vf::irange<int>(0, 2)}));
+				else if (w < 18)
+					c.ops.push_back(vf::Op("ra", {*vf::irange<int>(0, 7)}));
+				else {
+					vf::Op o("ls");
+					o.s = {std::string((size_t)*vf::irange<int>(1, 12), (char)('a' + i))};
+					c.ops.push_back(o);
+				}
+			}
+		}
 		return c;
 	});
 }
@@ -861,6 +1067,8 @@ static void classify(const vf::Case& c)
 		}
 		if (it.kind == 1)
 			st.cls(std::string("scalar.") + TYPE_NAME[it.t]);
+		if (it.kind == 5)
+			st.cls(std::string("string.length_prefixed.") + ORDER_NAME[it.order]);
 		if (it.kind == 3)
 			st.cls(it.t == 0 ? "string.cstr" : it.t == 1 ? "string.String" : "string.ByteArray");
 		if (it.kind == 1 || it.kind == 2)
@@ -878,6 +1086,25 @@ static void classify(const vf::Case& c)
 		st.cls("case.nan_payload");
 	if (p.items.size() >= 40)
 		st.cls("case.ops>=40");
+	bool reconn = false;
+	if (p.sessStart.size() > 1) {
+		// (only the part "reconn" acts on it) does a later session carry multi-byte data in the swapping order without an order item of its own?
+		for (size_t si = 1; si < p.sessStart.size(); si++) {
+			size_t from = p.sessStart[si], to = si + 1 < p.sessStart.size() ? p.sessStart[si + 1] : p.items.size();
+			bool own = false;
+			for (size_t i = from; i < to; i++) {
+				const Item& it = p.items[i];
+				if (it.kind == 0)
+					own = true;
+				else if (!own && it.order == 0 && ((it.kind == 1 || it.kind == 2) ? TYPE_SIZE[it.t] > 1 && !it.x.empty() : it.kind == 5)) {
+					reconn = true;
+					st.cls(p.sessDir[si] ? "reconn.later_session_reads_BIG_data_with_inherited_order" : "reconn.later_session_writes_BIG_data_with_inherited_order");
+					break;
+				}
+			}
+		}
+		st.cls("reconn.sessions=" + std::to_string(p.sessStart.size()));
+	}
 	if (rewritten)
 		st.cls("case.multibyte_array_written_again");
 	bool fragnt = false;
@@ -919,7 +1146,7 @@ static void classify(const vf::Case& c)
 				st.cls("frag.cut_on_a_value_boundary");
 		}
 	}
-	if (multi || sw || native || fragnt || rewritten) {
+	if (multi || sw || native || fragnt || rewritten || reconn) {
 		st.nt(vf::fnv(vf::serialize(c)));
 		if (p.items.size() >= 3 && p.items.size() <= 6 && p.all.size() < 60)
 			st.sample(vf::serialize(c) + "-> " + vf::hexs(p.all), 4);
@@ -968,4 +1195,6 @@ void vf_search(const vf::Args& a)
 	[&]() { vf::check_cases("seq", a.n(2500, 30000), 64, casegen(), classify); }();
 	// (3) Socket reader with the delivery cut into pieces (socket sink only)
 	[&]() { vf::check_cases("frag", a.n(400, 6000), 40, fragcasegen(), classify); }();
+	// (4) the same client Socket over several TCP loopback connections
+	[&]() { vf::check_cases("reconn", a.n(80, 600), 40, reconngen(), classify); }();
 }
